@@ -392,12 +392,15 @@ def run_estimator(p):
     X = data(est, n)
     kw = {}
     if p.get("lm") is not None:
-        kw["landmarks"] = landmarks_for(est, int(p["lm"]))
+        # `lmcells`: the landmarks are the cells themselves (a copy, same rows and order) - only possible for lm == n
+        kw["landmarks"] = X.copy() if (p.get("lmcells") and int(p["lm"]) == n) else landmarks_for(est, int(p["lm"]))
     try:
         if est == "function":
             form = p.get("sigma", "scalar")
             ycols = int(form.split()[1]) if form.startswith("mat") else 1
             y = np.random.default_rng(5).normal(size=(n, ycols))
+            if p.get("yim"):
+                kw["y_is_mean"] = True     # does not enter the resolution (the model has no such field)
             e = m.FunctionEstimator(n_landmarks=p["nl"], gp_type=gp_py(p["gp"]),
                                     predictor_with_uncertainty=bool(p["unc"]), sigma=sigma_py(form, n), **kw)
             e.fit(X, y)
@@ -464,7 +467,8 @@ def case_est(ctx, res, p):
     res.count("est:outcome=" + (out[0] if out[0] != "ok" else "ok:" + out[1] + ":" + out[3]))
     sample = {"op": "est", **{k: p.get(k) for k in ("est", "n", "nl", "lm", "rank", "gp", "unc", "opt", "sigma")},
               "outcome": list(out[:4]) if out[0] == "ok" else [out[0], out[1][:60]]}
-    canon = ("est", est, n, p["nl"], p.get("lm"), str(p["rank"]), str(p["gp"]), p["unc"], p["opt"], p.get("sigma"))
+    canon = ("est", est, n, p["nl"], p.get("lm"), str(p["rank"]), str(p["gp"]), p["unc"], p["opt"], p.get("sigma"),
+             bool(p.get("lmcells")), bool(p.get("yim")))
     res.case(canon, out[0] == "ok" or (p["gp"] is not None and (p["nl"] is not None or p["rank"] is not None)), sample)
     rank = p["rank"]
     # ---------------- oracle 1: clean failure
@@ -500,7 +504,7 @@ def case_est(ctx, res, p):
         if lm_user is not None and p["nl"] is not None and int(p["nl"]) != int(lm_user):
             # `fixed` with n_landmarks > n falls back to the n cells as landmarks; such a model carries n landmark rows next to
             # the larger request, and handing that state back (a repeated fit, a fresh model given the fitted landmarks) is legal
-            if not (gp == "fixed" and int(lm_user) == n < int(p["nl"])):
+            if not (gp == "fixed" and int(lm_user) == n < int(p["nl"]) and p.get("lmcells")):
                 bad.append("n_landmarks contradicts the landmarks given")
             else:
                 res.count("est:fixed_overrequest_with_cell_landmarks_accepted")
@@ -601,7 +605,8 @@ def case_est(ctx, res, p):
         kept = out[2][1] if out[0] == "ok" and out[2] is not None else 1
         sg = p.get("sigma", "scalar")
         line = (f"resolve {est} {n} {opt_tok(p['nl'])} {opt_tok(p.get('lm'))} {rank_tok(rank)} {gp_tok(p['gp'])} "
-                f"{'T' if p['unc'] else 'F'} {'lbfgsb' if p['opt'] == 'L-BFGS-B' else p['opt']} {kept} {sg}")
+                f"{'T' if p['unc'] else 'F'} {'lbfgsb' if p['opt'] == 'L-BFGS-B' else p['opt']} {kept} {sg} "
+                f"{'T' if (p.get('lmcells') and p.get('lm') is not None and int(p['lm']) == n) else 'F'}")
         mo = ask(ctx, line)
         if out[0] == "ok":
             exp = [out[1], str(n), str(out[2][1]) if out[2] is not None else None, out[3]]
@@ -656,9 +661,9 @@ def grid_lm(n):
     return [None, n - 2, n, n + 2]
 
 
-def est_cell(est, n, nl, lm, rank, gp, unc=False, opt="adam", sigma="scalar"):
+def est_cell(est, n, nl, lm, rank, gp, unc=False, opt="adam", sigma="scalar", lmcells=False, yim=False):
     return {"op": "est", "est": est, "n": n, "nl": nl, "lm": lm, "rank": rank, "gp": gp, "unc": unc, "opt": opt,
-            "sigma": sigma}
+            "sigma": sigma, "lmcells": lmcells, "yim": yim}
 
 
 def function_level(ctx, res, rng, quick):
@@ -755,11 +760,20 @@ def run(ctx, res):
            est_cell("function", 6, None, 6, None, ["S", "fixed"], sigma="vecL 7"),
            est_cell("function", 6, None, 4, None, None, sigma="vecL 6"),
            # fixed with more requested landmarks than cells: the state of the fitted model is accepted back
-           est_cell("density", 12, 13, 12, None, ["S", "fixed"]),
-           est_cell("density", 12, 5000, 12, None, ["S", "fixed"]),
-           est_cell("dim", 12, 13, 12, None, ["S", "fixed"]),
-           est_cell("time", 12, 13, 12, None, ["S", "fixed"]),
+           est_cell("density", 12, 13, 12, None, ["S", "fixed"], lmcells=True),
+           est_cell("density", 12, 5000, 12, None, ["S", "fixed"], lmcells=True),
+           est_cell("dim", 12, 13, 12, None, ["S", "fixed"], lmcells=True),
+           est_cell("time", 12, 13, 12, None, ["S", "fixed"], lmcells=True),
+           est_cell("function", 12, 13, 12, None, ["S", "fixed"], lmcells=True),
            est_cell("density", 12, 13, 11, None, ["S", "fixed"]),
+           # ... but only the cells: n other landmark rows next to a larger request are refused (fixed defect 2c47d64)
+           est_cell("density", 12, 13, 12, None, ["S", "fixed"]),
+           est_cell("function", 6, 5000, 6, None, ["S", "fixed"]),
+           est_cell("time", 12, 13, 12, None, ["S", "fixed"]),
+           # a wrong-length sigma is refused in every mode (fixed defect 28c326d: accepted with y_is_mean and no uncertainty)
+           est_cell("function", 6, None, None, None, None, sigma="vecL 5", yim=True),
+           est_cell("function", 6, None, 4, None, None, sigma="vecL 5", yim=True),
+           est_cell("function", 6, None, None, None, None, unc=True, sigma="vecL 7", yim=True),
            # the dimensionality estimator's two predictors (seeded change C15-e)
            est_cell("dim", 12, None, 12, ["F", 0.5], None),
            est_cell("dim", 12, None, 14, ["I", 3], ["S", "full_nystroem"]),
@@ -843,7 +857,8 @@ def run(ctx, res):
         if est == "function":
             sg = ["scalar", "scalar", "vecN", "mat 2", "negative", "vecL 1", "vecL %d" % (n - 1), "vecL %d" % (n + 1),
                   "vecL %d" % n][rng.integers(9)]
-            p = est_cell(est, n, nl, lm, None, gp, unc=bool(rng.random() < 0.5), sigma=sg)
+            p = est_cell(est, n, nl, lm, None, gp, unc=bool(rng.random() < 0.5), sigma=sg, lmcells=bool(rng.random() < 0.5),
+                         yim=bool(rng.random() < 0.4))
         else:
             r = grid_ranks(n)[rng.integers(11)]
             if r is not None and r[0] == "I" and rng.random() < 0.2:
@@ -853,7 +868,7 @@ def run(ctx, res):
             unc = bool(rng.random() < 0.5) if est == "density" else bool(rng.random() < 0.25)
             opt = (["adam", "advi", "L-BFGS-B"][int(rng.choice(3, p=[0.45, 0.45, 0.1]))] if unc
                    else ("L-BFGS-B" if rng.random() < 0.04 else "adam"))
-            p = est_cell(est, n, nl, lm, r, gp, unc=unc, opt=opt)
+            p = est_cell(est, n, nl, lm, r, gp, unc=unc, opt=opt, lmcells=bool(rng.random() < 0.5))
         run_case(ctx, res, p)
         i += 1
     res.count("sampled", i)
